@@ -525,8 +525,12 @@ def inline_new_locals(fnode, ref: dict) -> int:
             return False
         all_u = [n for n in ast.walk(fnode) if isinstance(n, ast.Name) and n.id == nm and isinstance(n.ctx, ast.Load)]
         seen = set()
+        binders = {id(st_) for st_, _b in v}
         for st_, blk_ in v:
             for s2 in blk_[blk_.index(st_) + 1:]:
+                # another binding of the name downstream of this one (a loop-carried value, a re-assignment): not a temporary
+                if any(id(n) in binders for n in ast.walk(s2)):
+                    return False
                 for n in ast.walk(s2):
                     if isinstance(n, ast.Name) and n.id == nm and isinstance(n.ctx, ast.Load):
                         if id(n) in seen:
